@@ -73,4 +73,8 @@ CLAIMS = {
   technique="end-of-history assertion monitor over chaos histories (blocked sends/recvs, connect retries, peers stalled mid-handshake, concurrent close/term): return times, panic hook, in-flight call ages, re-bind, live-actor gauge (hook), tokio alive tasks, /proc/self/fd",
   level_text="Held on every chaos history explored: close()/term() return within 30 s and not via term's internal 10 s timeout, no panic, no API call stays in flight for 2 s after term, endpoints of closed binders can be bound again, live actors 0, no inproc names, task and fd counts back to their pre-history values. Exploration of sampled schedules.",
   level_note="Baselines for tasks/fds are taken inside the same runtime just before each history; operations that keep succeeding after close are counted, not judged."),
+ "C17": dict(
+  technique="C01 traffic oracle on a healthy connection while a raw peer injects faults on other connections of the same socket, API/listener probes afterwards, refused-inproc-connect probe, reconnect-gap monitor at a raw listener, complete-grid check of the back-off arithmetic through the facade",
+  level_text="Held on every scenario explored: the healthy stream stays exactly-once and in order under each injected fault (incl. a 400-connection burst), the socket's API answers and its listener serves a new honest peer, a refused inproc connector leaves the binder working, reconnect gaps respect RECONNECT_IVL / IVL_MAX / geometric growth and traffic resumes; the back-off arithmetic is enumerated completely on its grid. Exploration plus one finite sub-space enumerated.",
+  level_note="Reconnect gaps are judged with 350 ms slack because the passive reconnect runs on a 100 ms tick; faults are injected one at a time in quick, three at a time in some thorough scenarios."),
 }
